@@ -93,7 +93,10 @@ class C17(PropBase):
     rule = ("cases = (code_file, debug_file, debug id text, code id text); strings exhaustive over the alphabet "
             "{a . / \\ : NUL e-acute} up to length 5 used as code_file and debug_file at once, up to length 4 paired with "
             "partner strings (ordinary, '..', '', drive-prefixed), plus random long strings with mixed separators, drive and UNC "
-            "prefixes; ids nil / ordinary / maximal / PDB2.0 / absent, code ids with non-hex bytes; a case is non-trivial when at "
+            "prefixes, plus the hostile-name dictionary (every core '..', '', 'C:', '.', encoded separators in every spelling x wrapper "
+            "(whitespace, markers, extensions, the checkout's own string literals) x position x directory style x role); url probe: every percent "
+            "spelling of . : / \\ ? # % @, all dot-segment spellings, server-URL cases; ids nil / ordinary / maximal / PDB2.0 / absent, code ids with "
+            "non-hex bytes; a case is non-trivial when at "
             "least one builder returned a path; distinct = distinct case lines")
     trusted_base = [
         "Coq 8.16.1 kernel (vm_compute in the refutation witnesses and non-vacuity Examples only)",
@@ -101,8 +104,10 @@ class C17(PropBase):
         "five builders, moz_lookup, lookup); tied to the code by the correspondence run on the public builders",
         "Path::join modelled from std's PathBuf::push (unix exactly; windows for the cases that matter: drive / double-separator "
         "/ rooted arguments); the POSIX join is additionally executed for real on every produced path by the harness; "
-        "URL joining is modelled as concatenation; the real Url::join (behind http.rs join_rel) is only exercised end to end by the "
-        "url probe (HttpSymbolSupplier::locate_symbols against a recording loopback server), see design/C17.md",
+        "C17/UrlModel.v: join_rel and the part of url 2.5.4's Url::join that applies to a reference against an http(s) base (trimming, "
+        "scheme detection, relative/absolute/authority/query/fragment branches, PATH encode set, dot-segment spellings, pop/shorten), written by "
+        "hand from parser.rs and validated against the real crate by the url probe (lookup cases + server-URL cases; the scheme/authority "
+        "branches are not reachable through the public API and are validated by reading only); host, query, fragment not modelled",
         "str::to_lowercase modelled as ASCII lowering when compared with 'pdb'/'dll' (the only non-ASCII char lowering to ASCII is U+212A -> k)",
         "ids: the theorems assume hex-only id text; the harness observes that DebugId::breakpad() and CodeId render hex only",
         "extraction: ExtrOcamlBasic only; ocaml/zconv.ml + ocaml/c17/main.ml glue; harness/src/bin/c17.rs",
@@ -111,18 +116,20 @@ class C17(PropBase):
         "text": "Theorems (Coq, all byte strings, all hex-only ids, all three FileKinds + code-info + mozilla-CAB variants): every "
                 "produced cache_rel/server_rel does not start with a separator, has no drive prefix and no `..` component "
                 "(c17_relative, _code_info, _moz), moz_lookup's unwrap never panics, and joining such a path onto any root under "
-                "POSIX or Windows Path::join rules or by URL concatenation keeps the root as a prefix (c17_join_contained). The tree "
+                "POSIX or Windows Path::join rules (incl. verbatim roots) or by URL concatenation keeps the root as a prefix (c17_join_contained, "
+                "c17_join_verbatim_contained); for the real URL path — http.rs join_rel followed by WHATWG reference resolution as Url::join does it — "
+                "every safe path, hence every builder output, is requested below the base directory for every base path (c17_url_join_contained, "
+                "c17_url_requests_contained, c17_url_code_info_contained; refuted without the encoding). The tree "
                 "before the fix is refuted (c17_relative_unfixed_refuted). Model tied to the code by running both on ~45k exhaustive "
                 "and random (code_file, debug_file, ids) cases in debug and release builds; an independent oracle re-checks the three "
                 "conditions and a real std::path join on the implementation's answers.",
         "note": "Trusted: Coq kernel; hand-written model of lib.rs (correspondence-checked, not verified); Path::join semantics from "
-                "std's source (Windows rules cannot be executed here); URL joining proved for concatenation only — Url::join is exercised by an "
-                "end-to-end probe, not modelled; ASCII lowering. No axioms.",
+                "std's source (Windows rules cannot be executed here: model-only); hand-written model of join_rel + url 2.5.4 path resolution, "
+                "checked against the real crate on ~12.6k probe predictions per run; ASCII lowering. No axioms.",
     }
     assumptions = ["module strings are valid UTF-8 (they are Rust `str`); bytes >= 128 are never separators",
                    "debug/code id text is hex-only (observed on every case through the real constructors, not proved about debugid)",
-                   "Url::join (WHATWG reference resolution: schemes, percent-encoded dots, stripped tabs) and http.rs join_rel are not modelled in Coq; "
-                   "they are exercised by the url probe on ~190 hostile/random names per build"]
+                   "URL theorems: path only (host, query, fragment not modelled); base is an http/https URL; strings are byte lists with elements 0..255"]
 
     # ------------------------------------------------------------------ cases
     def source_literals(self):
